@@ -33,7 +33,8 @@ RULE = ('(a) all strings of length <= 4 (quick) / <= 5 (thorough) over 25 charac
         'in 7 roles (right-hand side, left-hand side, parameter, error, lagged, both sides, fenced); (f) fenced and inline verbatim statements of every Python statement kind over the names of '
         "_evaluate()'s own arguments, each with and without trailing blanks; "
         'non-trivial = input that is not rejected by the very first equation regex test, i.e. reaches term parsing, or is accepted; distinct by input text'
-        ' A parse result edited by the caller must not come back from the next parse of the same text.')
+        ' A parse result edited by the caller must not come back from the next parse of the same text.'
+        ' 49 index texts x 5 templates; one name in two roles: 8 role spellings x 8 x 5 names, in one and in two statements.')
 ASSUMPTIONS = [
     'reference statement split: physical lines joined while parentheses or a code fence are open; blank and comment-only lines dropped',
     'an accepted equation whose generated code is a bare expression without any assignment or call is counted as a discarded statement; inputs with quote characters are not judged on this (text inside a Python string literal is not the parser\'s to translate)',
@@ -340,6 +341,30 @@ STATEMENT_KINDS = [
 TRAILERS = ['', ' ', '  ', '\t', ' # note', '\n', ' \n ']
 
 
+INDEX_TEXTS = ['inf', '-inf', 'nan', '1e999', '-1e999', '1e0', '1.0', '-1.5', '0x1', '1_0', '\u0661', '\u00b2', '+ 1', '- 1', '--1', '1 1', '', ' ', 't', 't-1', 't+1', "'a'", '"a"', '`a`', "'",
+               'None', 'True', '1j', '9' * 30, '-' + '9' * 30, '1e3', '007', '-0', '+0', '0.0', '1e-1', '[1]', '1]', '(1)', '1,2', ':', '1:2', 'X', 'X[-1]', '{a}', '<e>', '#', '=', '==1']
+INDEX_TEMPLATES = ['Y = X[%s]', 'Y[%s] = X', 'Y = {a}[%s] + <e>[%s]', 'Y = exp(X[%s]) + X[-1]', 'Y = (X[%s] +\n     Z)']
+# one name in two roles, in two statements (either order): variable, lagged variable, parameter, error, called function, left-hand side
+ROLE_FORMS = ['%s', '%s[-1]', '{%s}', '<%s>', '%s(X)', '%s (X)', 'np.%s(X)', '%s.f(X)']
+ROLE_NAMES = ['g', 'exp', 'np', 'if', 'X']
+
+
+def index_inputs():
+    for tpl in INDEX_TEMPLATES:
+        for text in INDEX_TEXTS:
+            yield tpl.replace('%s', text)
+
+
+def role_pair_inputs():
+    for name in ROLE_NAMES:
+        for f1 in ROLE_FORMS:
+            for f2 in ROLE_FORMS:
+                yield 'Y = 2 * %s\nZ = %s + 1' % (f1 % name, f2 % name)
+                yield 'Y = %s + %s' % (f1 % name, f2 % name)
+            yield '%s = 1\nZ = %s' % (name, f1 % name)
+            yield 'Z = %s\n%s = 1' % (f1 % name, name)
+
+
 def verbatim_inputs():
     seen = set()
     for kind in STATEMENT_KINDS:
@@ -419,6 +444,8 @@ def blocks(tier, seed):
             out.append({'kind': 'names', 'role': r, 'part': part, 'parts': 4})
     for part in range(8):
         out.append({'kind': 'verbatim-kinds', 'part': part, 'parts': 8})
+    out.append({'kind': 'index-texts'})
+    out.append({'kind': 'role-pairs'})
     for i in range(len(SEEDS)):
         if tier == 'quick':
             out.append({'kind': 'mutations', 'seed': i, 'double': False, 'part': 0, 'parts': 1})
@@ -490,6 +517,12 @@ def run_block(block, tier, seed):
             run_inputs((role.replace('%s', n) for i, n in enumerate(uni) if i % block['parts'] == block['part']), acc, sink, 'names')
             acc.n('names-in-universe-x-role', sum(1 for i in range(len(uni)) if i % block['parts'] == block['part']))
             acc.sample({'kind': 'names', 's': role.replace('%s', 'check')}, limit=1)
+        elif block['kind'] == 'index-texts':
+            run_inputs(index_inputs(), acc, sink, 'index-texts')
+            acc.sample({'kind': 'index-texts', 's': 'Y = X[inf]'}, limit=1)
+        elif block['kind'] == 'role-pairs':
+            run_inputs(role_pair_inputs(), acc, sink, 'role-pairs')
+            acc.sample({'kind': 'role-pairs', 's': 'Y = 2 * {g}\nZ = g(X) + 1'}, limit=1)
         elif block['kind'] == 'verbatim-kinds':
             run_inputs((s for i, s in enumerate(verbatim_inputs()) if i % block['parts'] == block['part']), acc, sink, 'verbatim-kinds')
             acc.sample({'kind': 'verbatim-kinds', 's': '```\nglobal t\n```'}, limit=1)
